@@ -18,6 +18,9 @@ ParamFs == [name : {"X"}, isnd : {TRUE}, tm : {<< >>}] \cup [name : {"X"}, isnd 
 PropFs == UNION { [name : {n}, isnd : {TRUE}, tm : {<< >>}, tr : {NoTR}, params : {<< >>}]
                   \cup [name : {n}, isnd : {FALSE}, tm : Seq01(TMs), tr : {NoTR}, params : {<< >>}]
                   \cup [name : {n}, isnd : {FALSE}, tm : {<< >>}, tr : {NoTR}, params : {<<p>> : p \in ParamFs}] : n \in {"P", "Q"} }
+          \* text-match and param-filter together: both must hold
+          \cup [name : {"P"}, isnd : {FALSE}, tm : {<<[text |-> <<"a">>, neg |-> FALSE]>>, <<[text |-> <<"a", "b">>, neg |-> TRUE]>>}, tr : {NoTR},
+                 params : {<<p>> : p \in ParamFs} \cup {<<[name |-> "X", isnd |-> FALSE, tm |-> << >>], [name |-> "Y", isnd |-> TRUE, tm |-> << >>]>>}]
 L2Fs == [name : {"VALARM"}, isnd : BOOLEAN, tr : {NoTR}, props : {<< >>}, comps : {<< >>}]
 L1Fs == UNION { [name : {n}, isnd : {TRUE}, tr : {NoTR}, props : {<< >>}, comps : {<< >>}]
                 \cup [name : {n}, isnd : {FALSE}, tr : {NoTR}, props : (IF Big THEN Seq02(PropFs) ELSE Seq01(PropFs)), comps : Seq01(L2Fs)]
